@@ -38,7 +38,7 @@ def scene_case(spec):
     nb = int(rng.integers(1, 3))
     cfg = S.draw_config(rng, nb=nb, multi_dir=(spec["idx"] % 2 == 1), random_tables=(spec["idx"] % 4 == 3),
                         max_patches=spec["max_patches"], offset=(spec["idx"] % 3 == 0),
-                        partition=(spec["idx"] % 3 == 2))
+                        partition=(spec["idx"] % 3 == 2) or bool(spec.get("partial")))
     if cfg.get("partition"):
         out["dist"]["interior_partition"] = 1
     K = int(rng.integers(1, 3))
@@ -46,12 +46,27 @@ def scene_case(spec):
     src = S.draw_inside(rng, cfg["dims"], off=cfg["offset"])
     nrec = int(rng.integers(1, 5))
     recs = draw_receivers(rng, cfg, nrec)
+    if spec.get("partial") and cfg.get("partition"):
+        # look for a receiver from which some wall is only PARTLY hidden by the partition (some of its patches
+        # visible, others not): visibility has to be decided patch by patch, not wall by wall
+        from sparrowpy import geometry as G
+        wallid = radi._patch_to_wall_ids
+        for _ in range(60):
+            cand = S.draw_inside(rng, cfg["dims"], off=cfg["offset"])
+            v = np.asarray(G._check_point2patch_visibility(
+                eval_point=cand, patches_center=radi.patches_center,
+                surf_points=radi.walls_points, surf_normal=radi.walls_normal), dtype=bool)
+            part = [w for w in range(int(wallid.max()) + 1) if v[wallid == w].any() and not v[wallid == w].all()]
+            if part:
+                recs[0] = cand
+                out["dist"]["receiver_with_partly_hidden_wall"] = 1
+                break
     mode = "short" if spec["idx"] % 5 == 4 else "long"
     c, dt, dur = P.draw_timing(rng, cfg, K, mode, radi, src, recs)
     tag = dict(dims=cfg["dims"], patch_size=cfg["patch_size"], n_patches=cfg["n_patches"], nb=nb,
                nt=cfg["nt"], nphi=cfg["nphi"], offset=list(cfg["offset"]), src=src.tolist(),
                recs=[r.tolist() for r in recs], c=c, dt=dt, dur=dur, K=K, mode=mode,
-               seed=spec["seed"], idx=spec["idx"])
+               seed=spec["seed"], idx=spec["idx"], max_patches=spec["max_patches"], partial=bool(spec.get("partial")))
     out["sample"] = tag
     out["dist"]["receivers_%d" % nrec] = 1
     out["dist"]["window_" + mode] = 1
@@ -151,6 +166,10 @@ def run(res):
     specs = [dict(seed=res.seed, idx=i, max_patches=(18 if quick else 34)) for i in range(10 if quick else 300)]
     for r in fw.run_parallel(scene_case, specs):
         res.absorb(r)
+    pspecs = [dict(seed=res.seed + 13, idx=3 * i + 2, max_patches=(30 if quick else 40), partial=True)
+              for i in range(5 if quick else 60)]
+    for r in fw.run_parallel(scene_case, pspecs):
+        res.absorb(r)
     for r in fw.run_parallel(wrap_witness, [{}]):
         res.absorb(r)
     res.rule = ("shoebox scenes (some translated), 1-4 receivers inside and outside the room, single- and "
@@ -166,4 +185,5 @@ def replay(res, payload):
         if case.get("witness"):
                 res.absorb(wrap_witness({}))
         else:
-            res.absorb(scene_case(dict(seed=case["seed"], idx=case["idx"], max_patches=34)))
+            res.absorb(scene_case(dict(seed=case["seed"], idx=case["idx"], max_patches=case.get("max_patches", 34),
+                                       partial=bool(case.get("partial")))))
